@@ -241,6 +241,34 @@ func onEveryPath(in ssa.Instruction) bool {
 	return true
 }
 
+// onEverySuccessPath: the instruction is executed on every path through its function that returns a nil error.
+func onEverySuccessPath(in ssa.Instruction) bool {
+	fn := in.Parent()
+	res := fn.Signature.Results()
+	if res.Len() == 0 || !isErrorType(res.At(res.Len()-1).Type()) {
+		return false
+	}
+	n := 0
+	for _, b := range fn.Blocks {
+		if b == fn.Recover {
+			continue
+		}
+		r, isR := b.Instrs[len(b.Instrs)-1].(*ssa.Return)
+		if !isR {
+			continue
+		}
+		_ = r
+		if blockReturnsError(b) {
+			continue // leaves with an error for certain
+		}
+		n++
+		if !(in.Block() == b || in.Block().Dominates(b)) {
+			return false
+		}
+	}
+	return n > 0
+}
+
 // helpersUnder: the private helpers called (transitively, depth ≤ 3) from fn.
 func (c *Ctx) helpersUnder(fn *ssa.Function) []*ssa.Function {
 	var out []*ssa.Function
